@@ -21,18 +21,27 @@ ASSUMPTIONS = ["the methods under test are straight-line polynomial code (read),
 CONFIGS = ['scipy']
 BUDGET = {'quick': 24000, 'thorough': 500000}
 EXHAUSTIVE_NOTE = "all 2^(2(deg+1)) two-valued component assignments for deg 1,2,3 (16+64+256 cases) x 5 t values x all methods"
-REQUIRED = ['grid', 'float:L', 'float:Q', 'float:C', 'reassigned_control_points', 'reversed_copy_of_queried_segment', 'far_from_origin']
+REQUIRED = ['grid', 'float:L', 'float:Q', 'float:C', 'reassigned_control_points', 'reversed_copy_of_queried_segment', 'far_from_origin', 'intpoly_fractional_control_points']
 
 EPS = 2.0 ** -52
 GRID_T = [F(0), F(1), F(1, 2), F(-1, 4), F(5, 4)]
 VALS = [(F(-3), F(2)), (F(5), F(-1)), (F(1), F(7)), (F(-2), F(4)), (F(3), F(-5)), (F(6), F(1)), (F(-4), F(3)), (F(2), F(-6))]
 
 
+INT_COEFFS = [-2, -1, 0, 1, 3]
+
+
 def exhaustive(tier, config):
+    import itertools
     for deg in (1, 2, 3):
         ncomp = 2 * (deg + 1)
         for bits in range(2 ** ncomp):
             yield {'kind': 'grid', 'deg': deg, 'bits': bits}
+    # polynomials given by integer coefficients (highest power first), in each of the containers the helpers accept
+    for deg in (1, 2, 3):
+        for co in itertools.product(INT_COEFFS, repeat=deg + 1):
+            if co[0] != 0:
+                yield {'kind': 'intpoly', 'coeffs': list(co)}
 
 
 def strategy(tier, config):
@@ -64,7 +73,31 @@ def _close(ctx, got, want, tol, bucket, what):
 def check(case, ctx):
     if case['kind'] == 'grid':
         return check_grid(case, ctx)
+    if case['kind'] == 'intpoly':
+        return check_intpoly(case, ctx)
     return check_float(case, ctx)
+
+
+def check_intpoly(case, ctx):
+    """control points recovered from a polynomial whose coefficients are Python ints / an integer array / an integer poly1d"""
+    from svgpathtools.path import poly2bez
+    from svgpathtools.bezier import polynomial2bezier
+    co = case['coeffs']                       # highest power first
+    n = len(co) - 1
+    a = [F(c) for c in co][::-1]              # a[j] = coefficient of t^j
+    want = [sum(F(math.comb(i, j), math.comb(n, j)) * a[j] for j in range(i + 1)) for i in range(n + 1)]
+    ctx.count('intpoly')
+    if any(w.denominator != 1 for w in want):
+        ctx.nontrivial(key=co, sample={'integer_coefficients': co, 'control_points': [str(w) for w in want]})
+        ctx.count('intpoly_fractional_control_points')
+    for label, arg in (('list', list(co)), ('int_array', np.array(co, dtype=int)), ('poly1d', np.poly1d(co)), ('float_list', [float(c) for c in co])):
+        got = ctx.lib('polynomial2bezier', polynomial2bezier, arg)
+        ok = len(got) == n + 1 and all(abs(complex(g) - float(w)) <= 1e-14 * (1 + abs(float(w))) for g, w in zip(got, want))
+        ctx.check(ok, 'intpoly/polynomial2bezier/' + label, 'polynomial2bezier(%s %r) = %r, expected %r' % (label, co, list(got), [float(w) for w in want]))
+        seg = ctx.lib('poly2bez', poly2bez, arg)
+        bp = seg.bpoints()
+        ok = len(bp) == n + 1 and all(abs(complex(g) - float(w)) <= 1e-14 * (1 + abs(float(w))) for g, w in zip(bp, want))
+        ctx.check(ok, 'intpoly/poly2bez/' + label, 'poly2bez(%s %r) has control points %r, expected %r' % (label, co, list(bp), [float(w) for w in want]))
 
 
 def check_grid(case, ctx):
